@@ -450,7 +450,8 @@ pub fn end_of_run_checks(base: &Baseline) -> Result<(), String> {
 
 macro_rules! chk {
     ($checked:expr, $cond:expr, $($fmt:tt)*) => {
-        if $checked && !($cond) {
+        let ok: bool = $cond;
+        if $checked && !ok {
             return Err(format!($($fmt)*));
         }
     };
@@ -679,7 +680,7 @@ impl<K: KeyT, V: ValT> MapHarness<K, V> {
                 let len = sut.model.len();
                 let u = self.cfg.universe as usize;
                 let mut tgt: Map<K, V> = match t {
-                    Tgt::Big => Map::with_capacity_and_hasher_in(4 * len + 8, PlanBuild, CheckAlloc),
+                    Tgt::Big => Map::with_capacity_and_hasher_in(4 * len + 8, PlanBuild::default(), CheckAlloc),
                     _ => Map::default(),
                 };
                 let nkeys = match t {
